@@ -41,6 +41,19 @@ func TestC13(t *testing.T) {
 	saltNames := []string{"nil", "empty", "s", "t", "st"}
 	// nil and empty are the same salt for the separation oracle
 	saltClass := []int{0, 0, 1, 2, 3}
+	// long salts around plausible internal buffer sizes, in pairs that differ
+	// only in their last byte
+	longSalts := func() {
+		for _, n := range []int{63, 64, 65, 73, 74, 104, 105, 106, 127, 128, 129, 200, 1024} {
+			for _, last := range []byte{'x', 'y'} {
+				b := []byte(strings.Repeat("0123456789abcdef", n/16+1)[:n])
+				b[n-1] = last
+				salts = append(salts, b)
+				saltNames = append(saltNames, fmt.Sprintf("%dB-%c", n, last))
+				saltClass = append(saltClass, 1000+2*n+int(last-'x'))
+			}
+		}
+	}
 	if !run.Quick() {
 		// thorough: 6 keys, every context over {a,b,NUL} up to length 3 plus two
 		// long ones, every salt over {s,t} up to length 2 plus nil and a 64-byte one
@@ -62,6 +75,7 @@ func TestC13(t *testing.T) {
 		saltNames = append(saltNames, "64B")
 		saltClass = append(saltClass, len(salts)-2)
 	}
+	longSalts()
 	lens := []int{0, 1, 16, 32, 33, 64, 1000}
 
 	desc := func(in input) map[string]any {
